@@ -31,6 +31,7 @@ import ASV.Proofs.SerialQual
 import ASV.Proofs.SerialDom
 import ASV.Proofs.SerialPfam
 import ASV.Proofs.SerialModule
+import ASV.Proofs.SerialCds
 namespace ASV.C10
 open ASV ASV.Serial
 
@@ -644,5 +645,38 @@ theorem written_notes_are_all_notes (f : Feat) (extra : Quals) (hq : Q.Nodup f.q
     would write one) -/
 example : (match (⟨.simple ⟨10, 40, .fwd⟩, "misc_feature", ["same text", "other"], [("note", ["same text"])], false, none⟩ : Feat).toBio with
     | .ok b => Q.get? b.quals "note" | _ => none) = some ["other", "same text", "same text"] := by decide +kernel
+
+/-! ### `CDS` features -/
+
+/-- a CDS feature made by antiSMASH (gene finding), without codon start: the written feature is read back with the same
+    locus tag, protein id, gene, product, translation, translation table, sec_met domains and gene functions
+    (`secmet_qualifier_roundtrip_partial`, `gene_functions_qualifier_roundtrip_partial` composed in); `gene_kind`, which
+    `from_biopython` does not consume, stays behind as a free qualifier with exactly the written value; apart from it the
+    base feature has the same view.  Partial — named missing parts: a codon start (covered for the base feature by
+    `codon_start_roundtrip` / `bio_roundtrip_feature_subclass`, not composed here), CDS features not made by antiSMASH
+    (`created_by_antismash = False`), the NRPS_PKS qualifier, names generated for nameless CDS, and the translation check
+    against the record, which is the parameter `trOK` (hypothesis: it accepts the feature's own translation).
+    `Cds.WF`: constructor invariants (a name, sanitised ids, translation starting with M, table ≠ 0, strand ±1), sec_met
+    domains and gene functions within their qualifier-level hypotheses, free qualifiers use none of the CDS keys. -/
+theorem bio_roundtrip_cds_partial (t : Bool) (defaultTable : Int) (trOK : String → Loc → Bool) (c : Cds) (h : c.WF trOK)
+    (b : Bio) (hb : c.toBio = .ok b) :
+    ∃ c', Cds.fromBio defaultTable trOK b = .ok c' ∧ c' = { c with feat := c'.feat } ∧
+      Q.get? c'.feat.quals "gene_kind" = kindQ c.geneFns ∧
+      ({ c'.feat with quals := Q.erase c'.feat.quals "gene_kind" } : Feat).view t = c.feat.view t ∧
+      c'.feat.loc = c.feat.loc :=
+  cds_roundtrip t defaultTable trOK c h b hb
+
+/-- a biosynthetic CDS found by antiSMASH with a sec_met domain, two gene functions and a note -/
+def sampleCds : Cds :=
+  { feat := ⟨.simple ⟨30, 60, .rev⟩, "CDS", ["a note"], [], true, none⟩, locusTag := some "ctg1_5", gene := some "geneA",
+    product := "a hypothetical protein", translation := "MACDEFACDE", translTable := 11,
+    secMet := [⟨"PKS_KS", "1.5e-20", "12.5", "25", "rule-based-clusters"⟩],
+    geneFns := [⟨.core, "rule-based-clusters", "PKS_KS", some "T1PKS"⟩, ⟨.transport, "smcogs", "ABC transporter", none⟩] }
+/-- non-vacuity: it is written and read back unchanged, with `gene_kind` left among the free qualifiers -/
+example : (match sampleCds.toBio with
+    | .ok b => (match Cds.fromBio 1 (fun _ _ => true) b with
+      | .ok c' => c' == { sampleCds with feat := c'.feat } && Q.get? c'.feat.quals "gene_kind" == some ["biosynthetic"]
+      | _ => false)
+    | _ => false) = true := by decide +kernel
 
 end ASV.C10
